@@ -8,4 +8,5 @@ CONSTANTS
   BC <- CBC
   BBit <- CBBit
   BBase <- CBBase
+  BHas <- CBHas
   RekeyOp <- IsapRekeyBits
